@@ -358,7 +358,7 @@ var _ = strings.Contains
 // (no effect on any state, same arguments give the same result). Listed in the evidence as assumptions.
 var pureLib = map[string]bool{
 	"strings.ToUpper": true, "strings.ToLower": true, "strings.TrimSpace": true, "strings.HasPrefix": true, "strings.HasSuffix": true,
-	"strings.Contains": true, "strings.Index": true, "strings.Split": true, "strings.SplitN": true, "strings.Join": true, "strings.Repeat": true,
+	"strings.Contains": true, "strings.Index": true, "strings.Split": true, "strings.SplitAfter": true, "strings.IndexFunc": true, "strings.SplitN": true, "strings.Join": true, "strings.Repeat": true,
 	"strings.ReplaceAll": true, "strings.Replace": true, "strings.TrimPrefix": true, "strings.TrimSuffix": true, "strings.EqualFold": true,
 	"strconv.Itoa": true, "strconv.FormatInt": true, "strconv.Quote": true,
 	"(net/url.Values).Get": true, "(net/url.Values).Has": true, "(*net/url.URL).Query": true, "(net/http.Header).Get": true,
